@@ -74,6 +74,25 @@ def live_in(stmts):
     return live
 
 
+def _is_counter(body, nm):
+    """Is `nm` only ever advanced by one in this loop body (`nm += 1` / `nm = nm + 1`)?  Such a name is a running output
+    index, whatever it is called; its integer entry value is not a polynomial."""
+    stores = []
+    for st in body:
+        for n in walk_no_nested(st):
+            if isinstance(n, ast.AugAssign) and isinstance(n.target, ast.Name) and n.target.id == nm:
+                stores.append(isinstance(n.op, ast.Add) and isinstance(n.value, ast.Constant) and n.value.value == 1)
+            elif isinstance(n, ast.Assign):
+                for t in n.targets:
+                    for x in ast.walk(t):
+                        if isinstance(x, ast.Name) and x.id == nm and isinstance(x.ctx, ast.Store):
+                            v = n.value
+                            stores.append(isinstance(t, ast.Name) and isinstance(v, ast.BinOp) and isinstance(v.op, ast.Add) and
+                                          ((isinstance(v.left, ast.Name) and v.left.id == nm and isinstance(v.right, ast.Constant) and v.right.value == 1) or
+                                           (isinstance(v.right, ast.Name) and v.right.id == nm and isinstance(v.left, ast.Constant) and v.left.value == 1)))
+    return bool(stores) and all(stores)
+
+
 class OrderDomain(NormDomain):
     name = 'ORDER'
 
@@ -359,7 +378,7 @@ class OrderDomain(NormDomain):
                 # assigned before it is read in the body: its entry value is dead
                 frame.env[nm] = Unknown('dead at loop head: %s' % nm)
                 continue
-            if r is not None and not (isinstance(v, Const) and isinstance(v.v, int) and nm in ('min_i', 'j', 'idx', 'k')):
+            if r is not None and not (isinstance(v, Const) and isinstance(v.v, int) and _is_counter(node.body, nm)):
                 k = self.match_explicit(r, fam, pv)
                 if k is not None:
                     head[nm] = k - lo_i
